@@ -1064,6 +1064,80 @@ let run_adev_line (line : string) : string =
     end) (List.tl parts);
   String.concat " ; " (List.rev !out)
 
+(* ------------------------------------------------------------------ nb_device front-end histories (Model/NbDev.v) *)
+let rec ncall_str = function
+  | NcTx (c, frame) -> Printf.sprintf "tx[%s/%d/%d pw=%s %s]" (dec_of_n c.tx_rf.rf_freq) (int_of_n c.tx_rf.rf_sf) (int_of_n c.tx_rf.rf_bw) (dec_of_z c.tx_pw) (hex_of_bytes frame)
+  | NcRxRequest rf -> Printf.sprintf "rx_request[%s/%d/%d/%d]" (dec_of_n rf.rf_freq) (int_of_n rf.rf_sf) (int_of_n rf.rf_bw) (int_of_n rf.rf_max_payload)
+  | NcCancelRx -> "cancel_rx" | NcPhy -> "phy" | NcFault w -> ncall_str w ^ "!ERR"
+let serr_str = function
+  | SRadioEventWhileIdle -> "RadioEventWhileIdle" | SRadioEventWhileWaitingForRxWindow -> "RadioEventWhileWaitingForRxWindow"
+  | SNewSessionWhileWaitingForRxWindow -> "NewSessionWhileWaitingForRxWindow" | SSendDataWhileWaitingForRxWindow -> "SendDataWhileWaitingForRxWindow"
+  | STxRequestDuringTx -> "TxRequestDuringTx" | SNewSessionWhileWaitingForRx -> "NewSessionWhileWaitingForRx" | SSendDataWhileWaitingForRx -> "SendDataWhileWaitingForRx"
+  | SBufferTooSmall -> "BufferTooSmall" | SUnexpectedRadioResponse -> "UnexpectedRadioResponse"
+let nresp_str = function
+  | NrNoUpdate -> "NoUpdate" | NrTimeoutRequest t -> "TimeoutRequest(" ^ dec_of_n t ^ ")" | NrJoinSuccess -> "JoinSuccess" | NrNoJoinAccept -> "NoJoinAccept"
+  | NrUplinkSending c -> "UplinkSending(" ^ dec_of_n c ^ ")" | NrDownlinkReceived f -> "DownlinkReceived(" ^ dec_of_n f ^ ")" | NrNoAck -> "NoAck"
+  | NrSessionExpired -> "SessionExpired" | NrRxComplete -> "RxComplete" | NrErrRadio -> "Err(Radio)" | NrErrState e -> "Err(State(" ^ serr_str e ^ "))"
+  | NrErrMacNotJoined -> "Err(Mac(NotJoined))" | NrPanic -> "PANIC" | NrHang -> "HANG"
+let answer_of (s : string) : ranswer =
+  match s with
+  | "txing" -> RaTxing | "txdone" -> RaTxDone (n_of_int 100) | "rxing" -> RaRxing | "err" -> RaErr
+  | r when String.length r >= 2 && String.sub r 0 2 = "rx" -> RaRxDone (bytes_of_hex (String.sub r 2 (String.length r - 2)))
+  | _ -> RaIdle
+let run_ndev_line (line : string) : string =
+  let parts = List.map String.trim (String.split_on_char '|' line) in
+  let head = List.filter (fun s -> s <> "") (String.split_on_char ' ' (List.hd parts)) in
+  let r = ref 5 and fault = ref None and bias = ref "-" and session = ref None in
+  List.iter (fun kv -> match String.index_opt kv '=' with
+    | Some i -> let k = String.sub kv 0 i and v = String.sub kv (i + 1) (String.length kv - i - 1) in
+      (match k with "r" -> r := int_of_string v | "fault" -> fault := (if v = "-" then None else Some (n_of_dec v)) | "bias" -> bias := v | "session" -> session := Some v | _ -> ())
+    | None -> ()) (List.tl head);
+  let m0 = mac_new (n_of_int !r) (n_of_int 22) (z_of_int 0) in
+  let m0 = if !bias <> "-" && (!r = 4 || !r = 8) then begin
+      let i = String.index !bias ':' in
+      let sb = int_of_string (String.sub !bias 0 i) and nr = int_of_string (String.sub !bias (i + 1) (String.length !bias - i - 1)) in
+      (match m0.m_region.rg_plan with
+       | PFix fp -> with_region m0 { rg_id = m0.m_region.rg_id;
+                                     rg_plan = PFix { fp_mask = fp.fp_mask;
+                                                      fp_jc = { fp.fp_jc with jc_preferred = Some (n_of_int sb); jc_max_retries = n_of_int nr } } }
+       | _ -> m0)
+    end else m0 in
+  let m0 = (match !session with
+      | None -> m0
+      | Some v -> (match String.split_on_char ':' v with
+          | [nwk; app; addr; up] ->
+            let s0 = session_new (bytes_of_hex nwk) (bytes_of_hex app) (n_of_dec addr) in
+            with_state m0 (Joined { s0 with ss_fcnt_up = n_of_dec up })
+          | _ -> m0)) in
+  let st = ref NIdle and m = ref m0 and calls = ref N0 in
+  let out = ref [] and stop = ref false in
+  List.iter (fun op ->
+    if not !stop then begin
+      let a = List.filter (fun s -> s <> "") (String.split_on_char ' ' op) in
+      let go ev ans =
+        let (((st', m'), e'), resp) = x_nb_handle_event !st !m { n_calls = !calls; n_fault = !fault; n_trace = [] } ev ans in
+        st := st'; m := m'; calls := e'.n_calls;
+        (match resp with NrPanic | NrHang -> stop := true | _ -> ());
+        out := Printf.sprintf "%s :: %s" (nresp_str resp) (String.concat " " (List.rev_map ncall_str e'.n_trace)) :: !out in
+      match a with
+      | [] -> ()
+      | "abp" :: nwk :: app :: addr :: _ ->
+        m := with_state !m (Joined (session_new (bytes_of_hex nwk) (bytes_of_hex app) (n_of_dec addr))); out := "JoinSuccess :: " :: !out
+      | "join" :: de :: ae :: key :: dr :: resp :: _ ->
+        go (NJoin ({ cr_deveui = n_of_dec de; cr_appeui = n_of_dec ae; cr_appkey = bytes_of_hex key }, draws_of dr)) (answer_of resp)
+      | "send" :: data :: port :: conf :: dr :: resp :: _ -> go (NSend (bytes_of_hex data, ni port, bool_of_tok conf, draws_of dr)) (answer_of resp)
+      | "phy" :: resp :: _ -> go NPhy (answer_of resp)
+      | "timeout" :: _ -> go NTimeout RaIdle
+      | "dr" :: v :: _ -> m := set_datarate !m (ni v); out := "ok :: " :: !out
+      | "adr" :: v :: _ -> m := set_adr !m (bool_of_tok v); out := "ok :: " :: !out
+      | "fcnt" :: _ ->
+        out := (match !m.m_state with
+            | Joined s -> Printf.sprintf "Some((%s, %s)) :: " (dec_of_n s.ss_fcnt_up) (match s.ss_fcnt_down with None -> "None" | Some f -> "Some(" ^ dec_of_n f ^ ")")
+            | _ -> "None :: ") :: !out
+      | _ -> out := "BADOP :: " :: !out
+    end) (List.tl parts);
+  String.concat " ; " (List.rev !out)
+
 let () =
   (try
     while true do
@@ -1074,6 +1148,7 @@ let () =
         | [] -> ""
         | "mac" :: _ -> (try run_mac_history line with e -> "DRIVER-EXN " ^ Printexc.to_string e)
         | "phy" :: _ -> (try run_phy_line line with e -> "DRIVER-EXN " ^ Printexc.to_string e)
+        | "ndev" :: _ -> (try run_ndev_line line with e -> "DRIVER-EXN " ^ Printexc.to_string e)
         | "adev" :: _ -> (try run_adev_line line with e -> "DRIVER-EXN " ^ Printexc.to_string e)
         | "chipmon" :: _ -> (try run_chipmon_line line with e -> "DRIVER-EXN " ^ Printexc.to_string e)
         | ("lora" | "lwr") :: _ -> (try run_lora_line line with e -> "DRIVER-EXN " ^ Printexc.to_string e)
